@@ -68,10 +68,21 @@ def _helper(name, a, qs):
         return {"outs": [uc.project_unitful(out)["si"]]}
     if name == "logspace_from_lin":
         return {"outs": [uc.project_unitful(cu.logspace_from_lin(qi, qj, NUM))["si"]]}
+    arr2 = arr.reshape(2, 2)
+    if name == "concatenate" and v != "default":
+        kw = {} if v == "axis0" else {"axis": {"axis1": 1, "axism1": -1, "axisnone": None}[v]}
+        out = ns.concatenate((arr2 * qi, arr2 * qj), **kw)
+        return {"outs": [uc.project_unitful(out)["si"]], "shape": list(out.shape)}
     if name == "concatenate":
         return {"outs": [uc.project_unitful(ns.concatenate((arr * qi, arr * qj)))["si"]]}
+    if name == "tile" and v == "reps21":
+        out = ns.tile(arr2 * qi, (2, 1))
+        return {"outs": [uc.project_unitful(out)["si"]], "shape": list(out.shape)}
     if name == "tile":
         return {"outs": [uc.project_unitful(ns.tile(arr * qi, 3 if v == "reps3" else 2))["si"]]}
+    if name == "polyfit" and v == "weights":
+        p = ns.polyfit(arr * qi, yarr * qj, deg, w=np.array([float(Fraction(*r)) for r in a["w"]]))
+        return {"outs": [[uc.project_unitful(c)["si"]] for c in p]}
     if name == "polyfit":
         p = ns.polyfit(arr * qi, yarr * qj, deg)
         return {"outs": [[uc.project_unitful(c)["si"]] for c in p]}
@@ -293,12 +304,19 @@ def _plain(name, e, A, B, C, outs):
         return {"outs": [np.linspace(A[0], B[0], e["num"]) * outs[0]]}
     if name == "logspace_from_lin":
         return {"outs": [np.geomspace(A[0], B[0], NUM) * outs[0]]}
+    if name == "concatenate" and e["twod"]:
+        r = np.concatenate([np.reshape(A, (2, 2)), np.reshape(B, (2, 2))], axis=None if e["axis"] == "none" else int(e["axis"])) * outs[0]
+        return {"outs": [r.ravel()], "shape": list(r.shape)}
     if name == "concatenate":
         return {"outs": [np.concatenate([A, B]) * outs[0]]}
+    if name == "tile" and e["twod"]:
+        r = np.tile(np.reshape(A, (2, 2)), (2, 1)) * outs[0]
+        return {"outs": [r.ravel()], "shape": list(r.shape)}
     if name == "tile":
         return {"outs": [np.tile(A, e["reps"]) * outs[0]]}
     if name == "polyfit":
-        p = np.polyfit(A, B, e["deg"])
+        kw = {"w": np.array([float(Fraction(*r)) for r in e["weights"]])} if e["weights"] else {}
+        p = np.polyfit(A, B, e["deg"], **kw)
         return {"outs": [[p[k] * outs[k]] for k in range(len(outs))]}
     if name == "polyval":
         return {"outs": [np.atleast_1d(np.polyval(B, A)) * outs[0]]}
@@ -427,7 +445,7 @@ def judge(a, obs, e, gv, tol10, htol10):
         want = _plain(name, e, A, B, C, outs)
         if "bool" in want:
             return None if obs.get("bool") == want["bool"] else "truth-value"
-        if len(want["outs"]) != len(obs["outs"]):
+        if len(want["outs"]) != len(obs["outs"]) or want.get("shape") != obs.get("shape"):
             return "shape"
         for w, o in zip(want["outs"], obs["outs"]):
             w = [float(v) for v in w]
